@@ -26,6 +26,7 @@ Print Assumptions C04_dead_forever.
 Theorem C04_dead_uses_fail : forall st r, assoc r (refs st) = Some RDead ->
   (forall r' s, step (CRefStep r' (BRef r) s) st = Fail EInvalidRef) /\
   (forall r', step (CRefUnwrap r' r) st = Fail EInvalidRef) /\
+  (forall r', step (CRefCopy r' r) st = Fail EInvalidRef) /\
   (forall r' t f, step (CRefCast r' r t f) st = Fail EInvalidRef) /\
   (forall t, step (CSetTag (BRef r) t) st = Fail EInvalidRef) /\
   (forall d s, step (CXfer (PChild (BRef r) d) s) st = Fail EInvalidRef).
@@ -39,6 +40,15 @@ Theorem C04_step_target_nested : forall st r b s p c st',
   assoc r (refs st') = Some (REph (r_uuid c)) /\ In (r_uuid c) (uuids p).
 Proof. exact step_target_nested. Qed.
 Print Assumptions C04_step_target_nested.
+
+(* a copy of a reference value (plain copy, function argument / result, stored in a struct field,
+   array, dictionary or optional and read back, directly or through a reference to the holder) is a
+   tracked reference to the same target, so it dies with the target like the original *)
+Theorem C04_copy_same_target : forall st r r0 u st',
+  step (CRefCopy r r0) st = Done st' -> assoc r0 (refs st) = Some (REph u) ->
+  assoc r (refs st') = Some (REph u) /\ assoc r0 (refs st') = Some (REph u).
+Proof. exact copy_same_target. Qed.
+Print Assumptions C04_copy_same_target.
 
 (* References to a resource that has not moved stay usable ... *)
 Theorem C04_ref_stable_if_not_moved : forall c st st' u r,
@@ -89,6 +99,7 @@ Definition ex_cmds : list cmd :=
     CRefStep 11 (BRef 10) (SlArr 0);       (* to the array element *)
     CRefStep 12 (BVar 1) (SlDict 0);       (* to the dictionary value *)
     CRefUnwrap 13 12;
+    CRefCopy 14 13;                        (* re-read through a holder *)
     CSetTag (BRef 13) 70; CUse 13 UTag;    (* usable, reads current contents *)
     CXfer (PVar 4) (SPlace (PChild (BVar 1) (SlArr 0)) false None) ].   (* move the element out *)
 
@@ -102,7 +113,7 @@ Example C04_ex_after_remove :
       step (CUse 11 UTag) st = Fail EInvalidRef /\
       (* now move the outer resource: the sibling (nested) reference dies too *)
       match step (CXfer (PSto 0) (SPlace (PVar 1) false None)) st with
-      | Done st2 => assoc 13 (refs st2) = Some RDead /\ assoc 10 (refs st2) = Some RDead
+      | Done st2 => assoc 13 (refs st2) = Some RDead /\ assoc 14 (refs st2) = Some RDead /\ assoc 10 (refs st2) = Some RDead
                     /\ moved_by (CXfer (PSto 0) (SPlace (PVar 1) false None)) st
                        = Some (Rs 1 false 2 [(KDict 0, Rs 3 true 70 [])])
       | Fail _ => False
